@@ -79,9 +79,19 @@ def nontrivial(case):
     return case.meta.get("source_event", False)
 
 
-def content_ops(rng, cfg):
+def content_ops(rng, cfg, compressed=False):
     p = buildprog.gen_prog(rng, cfg=cfg, nsec=rng.randint(1, 4), nseg=rng.randint(0, 2), allow_nested=False, small=True)
-    return [l for l in p.lines if not l.startswith(("ctor", "create"))]
+    lines = [l for l in p.lines if not l.startswith(("ctor", "create"))]
+    if compressed:
+        # an object built with a compression interface: one or two data sections outside segments are flagged as
+        # compressed (SHF_COMPRESSED / SHF_RPX_DEFLATE), so that save() of whoever owns them goes through the interface
+        cand = [i for i, s_ in enumerate(p.sections) if s_["type"] != 8 and s_["seg"] is None and s_["size"] > 0]
+        for i in rng.sample(cand, min(len(cand), rng.randint(1, 2))):
+            lines.append("secset %d flags %d" % (i + 2, p.sections[i]["flags"] | rng.choice([0x800, 0x08000000])))
+        if not cand:
+            k = len(p.sections) + 2
+            lines += ["addsec " + hx(b".zdata"), "secset %d type 1" % k, "secset %d flags %d" % (k, 0x800), "dset %d %s" % (k, hx(rbytes(rng, 40)))]
+    return lines
 
 
 def tail_ops(rng):
@@ -98,10 +108,11 @@ def other_cfg(cfg, rng):
 
 def move_case(cid, rng, cfg, imgs):
     # objects: 0 = source, 1 = reference (same history, never moved), 2 = destination
-    how = rng.choice(["create", "create", "load", "lazy"])
-    if how == "create":
-        ops = ["create %s %s" % cfg] + content_ops(rng, cfg)
-        start = lambda k: ["obj %d" % k, "ctor plain"] + ops
+    how = rng.choice(["create", "create", "compr", "load", "lazy"])
+    if how in ("create", "compr"):
+        ops = ["create %s %s" % cfg] + content_ops(rng, cfg, compressed=(how == "compr"))
+        ctor = "ctor compr" if how == "compr" else "ctor plain"
+        start = lambda k: ["obj %d" % k, ctor] + ops
     else:
         im, b = rng.choice(imgs)
         lazy = 1 if how == "lazy" else 0
